@@ -50,6 +50,9 @@ EXPECTED_PROBES = ["tzlocal_judged", "tzlocal_stale_not_judged",
                    "rule_time_24", "malformed_rejected", "gmt_plus",
                    "no_dst_fixed", "glibc_consulted"]
 
+REAL = ['dateutil.tz tzstr/tzrange/tzlocal/gettz, the TZ-string parser, relativedelta from /repo/src', "glibc tzset/localtime under the real TZ environment variable (second oracle and tzlocal's back end)", 'real OS threads in the threads class']
+STUB = ['the sequence of process reconfigurations (generated)', 'thread scheduling in the threads class', 'locks (SimLock) of the tzstr factory']
+
 CLASSES = {
     "config": dict(quick=25000, thorough=600000, timeout=120),
     # zone objects (tzstr instances are shared process-wide by their factory)
